@@ -266,18 +266,18 @@ func c17Gen(r *core.Rand, tier string) any {
 
 // ------------------------------------------------------------------ observation
 
-type fileStat struct {
+type c17FileStat struct {
 	size  int64
 	mtime int64
 	ino   uint64
 }
 
-func statOf(p string) fileStat {
+func c17StatOf(p string) c17FileStat {
 	fi, err := os.Stat(p)
 	if err != nil {
-		return fileStat{}
+		return c17FileStat{}
 	}
-	st := fileStat{size: fi.Size(), mtime: fi.ModTime().UnixNano()}
+	st := c17FileStat{size: fi.Size(), mtime: fi.ModTime().UnixNano()}
 	if s, ok := fi.Sys().(*syscall.Stat_t); ok {
 		st.ino = s.Ino
 	}
@@ -285,7 +285,7 @@ func statOf(p string) fileStat {
 }
 
 type c17NodeView struct {
-	dbStat, walStat fileStat
+	dbStat, walStat c17FileStat
 	raw             string // hash of the file bytes
 	logical         string // extended logical dump
 }
@@ -311,8 +311,8 @@ func c17Dump(dbPath, tmpDir string) (string, error) {
 			return "", err
 		}
 	}
-	registerSQLDrivers()
-	db, err := sql.Open(plainDriver, "file:"+cp)
+	sqlhRegisterDrivers()
+	db, err := sql.Open(sqlhPlainDriver, "file:"+cp)
 	if err != nil {
 		return "", err
 	}
@@ -322,7 +322,7 @@ func c17Dump(dbPath, tmpDir string) (string, error) {
 }
 
 func c17DumpDB(db *sql.DB) (string, error) {
-	s, err := dumpQ(db)
+	s, err := sqlhDumpQ(db)
 	if err != nil {
 		return "", err
 	}
@@ -349,7 +349,7 @@ func c17DumpDB(db *sql.DB) (string, error) {
 	return s, nil
 }
 
-func rawHash(dbPath string) string {
+func c17RawHash(dbPath string) string {
 	h := sha1.New()
 	b, _ := os.ReadFile(dbPath)
 	h.Write(b)
@@ -427,7 +427,7 @@ func (k *c17Run) baseline(n *node.Node) bool {
 		k.c.Discard("dump-failed: " + err.Error())
 		return false
 	}
-	k.views[n.Idx] = &c17NodeView{dbStat: statOf(p), walStat: statOf(p + "-wal"), raw: rawHash(p), logical: l}
+	k.views[n.Idx] = &c17NodeView{dbStat: c17StatOf(p), walStat: c17StatOf(p + "-wal"), raw: c17RawHash(p), logical: l}
 	return true
 }
 
@@ -451,12 +451,12 @@ func (k *c17Run) afterStep(full bool) bool {
 			continue
 		}
 		p := k.dbPath(n)
-		ds, ws := statOf(p), statOf(p+"-wal")
+		ds, ws := c17StatOf(p), c17StatOf(p+"-wal")
 		if !full && !touched[n.ID] && ds == v.dbStat && ws == v.walStat {
 			continue
 		}
 		v.dbStat, v.walStat = ds, ws
-		raw := rawHash(p)
+		raw := c17RawHash(p)
 		if raw == v.raw {
 			continue
 		}
@@ -599,7 +599,7 @@ func c17RunFn(c *core.Ctx, raw json.RawMessage) {
 		return
 	}
 	k := &c17Run{sc: &sc, c: c, s: s, hk: hk, views: map[int]*c17NodeView{}}
-	ref, err := openMemDB(plainDriver)
+	ref, err := sqlhOpenMemDB(sqlhPlainDriver)
 	if err != nil {
 		c.Discard("oracle-db: " + err.Error())
 		return
